@@ -984,8 +984,8 @@ func (r *runningStep) cancelStep() {
 		}
 	}
 	// Now cancel the context to stop the non-running parts of the step
-	r.cancel()
 	verifhook.Emit("SCtx", "obj", r, "why", "cancelStep", "curstage", string(r.currentStage))
+	r.cancel()
 }
 
 // ForceClose closes the step without waiting for a graceful shutdown of the ATP client.
@@ -1021,8 +1021,8 @@ func (r *runningStep) forceCloseInternal() error {
 }
 
 func (r *runningStep) forceClose() error {
-	r.cancel()
 	verifhook.Emit("SCtx", "obj", r, "why", "forceClose")
+	r.cancel()
 	err := r.closeComponents(false)
 	return err
 }
